@@ -61,7 +61,9 @@ func init() {
 					mu.Unlock()
 				}
 			}
-			cl, err := t.NewClient(p, defaultCfg())
+			cfg := defaultCfg()
+			cfg.ReadQueue, cfg.WriteQueue = 1024, 128 // the property excludes receive-queue overflow
+			cl, err := t.NewClient(p, cfg)
 			if err != nil {
 				t.Check("setup", false, "dial: %v", err)
 				return
@@ -134,60 +136,122 @@ func init() {
 		}})
 	}
 
-	// all 256 status codes x {valid error body, garbage, empty}
-	register(&scenario{Name: "c05/status-mapping", Props: []string{"C05"}, Quick: true, Run: func(t *T) {
+	// all 256 status codes x {valid error body, garbage, empty}, on a protobuf-codec and on a JSON-codec connection
+	for _, cd := range []protocol.CodecType{protocol.CodecProtobuf, protocol.CodecJSON} {
+		cd := cd
+		register(&scenario{Name: "c05/status-mapping" + map[protocol.CodecType]string{protocol.CodecProtobuf: "", protocol.CodecJSON: "-json"}[cd], Codec: cd, Props: []string{"C05"}, Quick: true, Run: func(t *T) {
+			p := newPeer(t, t.Transport, t.Version)
+			defer p.Shutdown()
+			p.onFrame = func(pc *peerConn, f frameIn) {
+				if stdReply(pc, f) {
+					return
+				}
+				if f.Typ == 1 && f.Cmd >= 100 {
+					st := uint8(f.To) // the scenario smuggles nothing: status chosen from the caller tag below
+					_ = st
+					tag := tagOfBody(f.Body)
+					status := uint8(tag & 0xff)
+					kind := (tag >> 8) & 3
+					var body []byte
+					switch kind {
+					case 0:
+						body = errBody(uint64(1000+int(status)), fmt.Sprintf("msg-%d", status))
+						if cd == protocol.CodecJSON {
+							body = []byte(fmt.Sprintf(`{"code":%d,"msg":"msg-%d"}`, 1000+int(status), status))
+						}
+					case 1:
+						body = []byte{0xff, 0xfe, 0x00, 0x13, 0x37}
+					}
+					pc.Send(respFrame(f, status, body))
+				}
+			}
+			cl, err := t.NewClient(p, defaultCfg())
+			if err != nil {
+				t.Check("setup", false, "dial: %v", err)
+				return
+			}
+			defer cl.Close(nil)
+			for st := 0; st < 256; st++ {
+				for kind := 0; kind < 3; kind++ {
+					tag := int32(st | kind<<8)
+					res, err := doTagged(t, cl, 100, tag, 8)
+					key := "err_mapping"
+					if st == 0 {
+						t.Check(key, err == nil && res != nil, "status 0 surfaced as %v", err)
+						continue
+					}
+					lb, ok := err.(*protocol.LBError)
+					switch {
+					case !ok:
+						t.Check(key, false, "status %d surfaced as %T %v (want *LBError)", st, err, err)
+					case lb.Status != uint8(st):
+						t.Check(key, false, "status %d surfaced with status %d", st, lb.Status)
+					case kind == 0 && (lb.Code != uint64(1000+st) || lb.Message != fmt.Sprintf("msg-%d", st)):
+						t.Check(key, false, "status %d: code/message %d %q", st, lb.Code, lb.Message)
+					case kind != 0 && kind != 2 && (lb.Code != 500 || lb.Message != "unknown error, cant unmarshal body"):
+						t.Check(key, false, "status %d garbage body: code/message %d %q (want the 500 fallback)", st, lb.Code, lb.Message)
+					default:
+						t.Check(key, true, "")
+					}
+				}
+			}
+		}})
+	}
+
+	// many callers for a long time: ids must never collide, every call gets its own answer (supports C19's atomic generator)
+	register(&scenario{Name: "c05/heavy-concurrency", Props: []string{"C05", "C19"}, Quick: true, Transports: []string{"tcp"}, TimeoutU: 1200, Run: func(t *T) {
 		p := newPeer(t, t.Transport, t.Version)
 		defer p.Shutdown()
+		var mu sync.Mutex
+		seen := map[uint32]int{}
 		p.onFrame = func(pc *peerConn, f frameIn) {
 			if stdReply(pc, f) {
 				return
 			}
-			if f.Typ == 1 && f.Cmd >= 100 {
-				st := uint8(f.To) // the scenario smuggles nothing: status chosen from the caller tag below
-				_ = st
-				tag := tagOfBody(f.Body)
-				status := uint8(tag & 0xff)
-				kind := (tag >> 8) & 3
-				var body []byte
-				switch kind {
-				case 0:
-					body = errBody(uint64(1000+int(status)), fmt.Sprintf("msg-%d", status))
-				case 1:
-					body = []byte{0xff, 0xfe, 0x00, 0x13, 0x37}
-				}
-				pc.Send(respFrame(f, status, body))
+			if f.Typ == 1 {
+				mu.Lock()
+				seen[f.Rid]++
+				mu.Unlock()
+				pc.Send(respFrame(f, 0, f.Body))
 			}
 		}
-		cl, err := t.NewClient(p, defaultCfg())
+		cfg := defaultCfg()
+		cfg.ReadQueue, cfg.WriteQueue = 4096, 1024
+		cl, err := t.NewClient(p, cfg)
 		if err != nil {
 			t.Check("setup", false, "dial: %v", err)
 			return
 		}
 		defer cl.Close(nil)
-		for st := 0; st < 256; st++ {
-			for kind := 0; kind < 3; kind++ {
-				tag := int32(st | kind<<8)
-				res, err := doTagged(t, cl, 100, tag, 8)
-				key := "err_mapping"
-				if st == 0 {
-					t.Check(key, err == nil && res != nil, "status 0 surfaced as %v", err)
-					continue
+		var wg sync.WaitGroup
+		var misrouted, failed int32
+		for g := 0; g < 64; g++ {
+			wg.Add(1)
+			go func(g int) {
+				defer wg.Done()
+				for i := 0; i < 700; i++ {
+					tag := int32(g*100000 + i)
+					res, err := doTagged(t, cl, 100, tag, 40)
+					if err != nil {
+						atomic.AddInt32(&failed, 1)
+					} else if tagOfBody(res.Body) != tag {
+						atomic.AddInt32(&misrouted, 1)
+					}
 				}
-				lb, ok := err.(*protocol.LBError)
-				switch {
-				case !ok:
-					t.Check(key, false, "status %d surfaced as %T %v (want *LBError)", st, err, err)
-				case lb.Status != uint8(st):
-					t.Check(key, false, "status %d surfaced with status %d", st, lb.Status)
-				case kind == 0 && (lb.Code != uint64(1000+st) || lb.Message != fmt.Sprintf("msg-%d", st)):
-					t.Check(key, false, "status %d: code/message %d %q", st, lb.Code, lb.Message)
-				case kind != 0 && kind != 2 && (lb.Code != 500 || lb.Message != "unknown error, cant unmarshal body"):
-					t.Check(key, false, "status %d garbage body: code/message %d %q (want the 500 fallback)", st, lb.Code, lb.Message)
-				default:
-					t.Check(key, true, "")
-				}
+			}(g)
+		}
+		wg.Wait()
+		mu.Lock()
+		dup := 0
+		for _, n := range seen {
+			if n > 1 {
+				dup++
 			}
 		}
+		mu.Unlock()
+		t.Check("do_returns_own_id", misrouted == 0, "%d of 44800 calls returned another call's response", misrouted)
+		t.Check("do_returns_own_id", dup == 0, "%d request ids were used by two calls on one connection", dup)
+		t.Check("do_returns", failed == 0, "%d of 44800 answered calls failed", failed)
 	}})
 
 	// C07: the response is dispatched while the caller is parked right after the request was handed to the transport
